@@ -206,7 +206,8 @@ class FSearch(CExec):
         for nm, f in self.clauses(c, head).items():
             self.assumptions.append(z3.Implies(head.guard, f))
         c["head"] = head.clone()
-        self.active.append(c)
+        if not getattr(self, "_trial", False):
+            self.active.append(c)
 
     def on_mem_read(self, st, tname, addr, n):
         self.read_check(st, addr)
